@@ -124,7 +124,7 @@ def _classes(dim):
 
 
 @st.composite
-def _spec(draw, classes=None, dim=None, scale_range=(1e-3, 1e3), var_range=(1e-2, 1e2)):
+def _spec(draw, classes=None, dim=None, scale_range=(1e-3, 1e6), var_range=(1e-2, 1e2)):
     dim = dim or draw(st.sampled_from([2, 3]))
     cl = [c for c in (classes or gens.CLASSES) if gens.max_valid_dim(c) >= dim]
     spec = draw(
@@ -241,6 +241,10 @@ def _samples(srf, dim, n_modes, tags):
     )
     ok = np.all(np.isfinite(k)) and np.all(np.isfinite(z1)) and np.all(np.isfinite(z2)) and np.all(np.sum(k * k, axis=0) > 0)
     require(bool(ok), "generator drew non-finite or zero wave vectors / amplitudes", dict(tags, kind="degenerate_sample"))
+    # every mode carries its N(0,1) amplitudes (an exactly vanishing pair has probability zero): the variance split relies on all N modes
+    dead = int(np.sum((z1 == 0.0) & (z2 == 0.0)))
+    require(dead == 0, f"{dead} of {n_modes} modes have both amplitudes exactly zero (smallest |k| {float(np.min(np.sqrt(np.sum(k * k, axis=0)))):.3g})",
+            dict(tags, kind="dead_modes"))
     return k, z1, z2
 
 
